@@ -341,6 +341,64 @@ func ruleBTReg(c *Ctx) {
 			c.Check(pure, key, P.pos(cs.Instr.Pos()), "delegates the same Go type to a sibling builder", "a builder constructs a sub-codec by calling a per-type builder directly instead of the dispatcher: registered codecs are bypassed for that position")
 		}
 	}
+	// builders the dispatcher reaches WITHOUT consulting the registry (union and null schemas) must not build a
+	// leaf codec for the Go type themselves: only wrappers around dispatcher-built codecs, or a codec justified by
+	// asserting the type of a dispatcher-built one
+	unconsulted := map[*Builder]bool{}
+	for _, p := range root.Paths {
+		r := P.classifyReturn(p)
+		if r.Delegate == nil || r.Dynamic {
+			continue
+		}
+		if _, consulted := p.State.bools[okv]; consulted {
+			continue
+		}
+		if k := p.State.kindsOf(tp); k == 1<<nilKind {
+			continue
+		}
+		if callee := e.byFn[r.Delegate.Call.StaticCallee()]; callee != nil && callee.Fn.Name() != "buildPointerCodec" {
+			unconsulted[callee] = true
+		}
+	}
+	for b := range unconsulted {
+		seen := map[string]bool{}
+		for _, p := range b.Paths {
+			r := P.classifyReturn(p)
+			if r.Codec == nil || b.TypParam == nil {
+				continue
+			}
+			name := typeKey(r.Codec)
+			ct := e.byType[name]
+			if ct == nil {
+				continue
+			}
+			con := e.typedContract(ct)
+			key := fmt.Sprintf("%s/unconsulted-return[%s]", fnKey(b.Fn), name)
+			switch con.Kind {
+			case CNone, CSub:
+				if !seen[key] {
+					seen[key] = true
+					c.OKTrivial(key, P.pos(p.Ret.Pos()), "a wrapper (or a codec that never touches the value): the branch codec comes from the dispatcher")
+				}
+				continue
+			}
+			via := false
+			for _, ta := range assertedOnPath(p) {
+				if _, targ, ok := builtFrom(P, ta.X); ok && targ == ssa.Value(b.TypParam) {
+					via = true
+				}
+			}
+			if k := p.State.kindsOf(b.TypParam.Name()); k == 1<<nilKind {
+				via = true // no Go type: nothing registered can apply
+			}
+			if !via {
+				c.Bad(key, P.pos(p.Ret.Pos()), fmt.Sprintf("%s is built for the Go type directly on a path where the registry was never consulted and no dispatcher-built codec was inspected: a codec registered for that type is bypassed in this position", name))
+			} else if !seen[key] {
+				seen[key] = true
+				c.OK(key, P.pos(p.Ret.Pos()), "returned only after a dispatcher-built codec for the same type was found to be the built-in one")
+			}
+		}
+	}
 	// recursion sites: calls of the dispatcher from builders
 	n := 0
 	for _, b := range e.Builders {
